@@ -85,15 +85,24 @@ def main():
             root = sys.argv[2]
             tier = sys.argv[3] if len(sys.argv) > 3 else "quick"
             only = sys.argv[4:]
+            done = set()
+            if os.path.exists("/verif/build/mutants.log") and os.environ.get("MUT_RESUME"):
+                for line in open("/verif/build/mutants.log"):
+                    done.add(json.loads(line)["mutant"])
             for name in sorted(os.listdir(root)):
                 d = os.path.join(root, name)
                 if not os.path.isfile(os.path.join(d, "patch.diff")):
                     continue
                 if only and not any(name.startswith(o) for o in only):
                     continue
-                rec = {"mutant": name, "confirm": confirm(d)}
-                if rec["confirm"]["ok"]:
-                    rec["check"] = check(d, tier)
+                if name in done:
+                    continue
+                try:
+                    rec = {"mutant": name, "confirm": confirm(d)}
+                    if rec["confirm"]["ok"]:
+                        rec["check"] = check(d, tier)
+                except AssertionError as exc:
+                    rec = {"mutant": name, "error": str(exc)[:300]}
                 with open("/verif/build/mutants.log", "a") as f:
                     f.write(json.dumps(rec) + "\n")
                 print(json.dumps(rec)[:600], flush=True)
